@@ -7,7 +7,7 @@ use serde::{Deserialize, Serialize};
 use std::collections::HashSet;
 use std::marker::PhantomData;
 
-pub const OPS: [&str; 27] = [
+pub const OPS: [&str; 35] = [
     "SecretKey::new",
     "SecretKey::split",
     "PublicKey::sign_crypt",
@@ -33,6 +33,14 @@ pub const OPS: [&str; 27] = [
     "PublicKey::encrypt_time_lock [64 byte message]",
     "ProofCommitment::generate [64 byte message]",
     "ProofOfKnowledgeTimestamp::generate [64 byte message]",
+    "PublicKey::sign_crypt [65536 byte message]",
+    "PublicKey::encrypt_time_lock [65536 byte message]",
+    "ProofCommitment::generate [65536 byte message]",
+    "ProofOfKnowledgeTimestamp::generate [65536 byte message]",
+    "PublicKey::sign_crypt [70000 byte message]",
+    "PublicKey::encrypt_time_lock [70000 byte message]",
+    "ProofCommitment::generate [70000 byte message]",
+    "ProofOfKnowledgeTimestamp::generate [70000 byte message]",
     // trait level ElGamal entry points, the RNG handed in is seeded from the next entropy answer
     "BlsElGamal::seal_scalar_with_proof [blinder pinned by the caller]",
     "BlsElGamal::seal_scalar [generator pinned by the caller]",
@@ -42,7 +50,7 @@ pub const OPS: [&str; 27] = [
 pub struct Fixed<C: Suite> {
     sk: SecretKey<C>,
     pk: PublicKey<C>,
-    /// message variants: 33 bytes, 200 bytes, empty, 64 bytes - with the signature over each
+    /// message variants: 33 bytes, 200 bytes, empty, 64 bytes, 65536 bytes, 70000 bytes - with the signature over each
     msgs: Vec<Vec<u8>>,
     sigs: Vec<Signature<C>>,
 }
@@ -50,7 +58,7 @@ pub struct Fixed<C: Suite> {
 impl<C: Suite> Fixed<C> {
     fn new(seed: u64) -> Self {
         let sk = SecretKey::<C>::from_hash(data(seed, "c20-key", 32));
-        let msgs = vec![msg_of(seed, 33, 3), msg_of(seed, 200, 3), vec![], msg_of(seed, 64, 3)];
+        let msgs = vec![msg_of(seed, 33, 3), msg_of(seed, 200, 3), vec![], msg_of(seed, 64, 3), msg_of(seed, 65536, 3), msg_of(seed, 70000, 3)];
         let sigs = msgs.iter().map(|m| sk.sign(SignatureSchemes::ProofOfPossession, m).unwrap()).collect();
         Fixed { pk: sk.public_key(), sigs, sk, msgs }
     }
@@ -67,7 +75,7 @@ fn blocks(label: &str, mask: &[u8]) -> Vec<(String, Vec<u8>)> {
 pub fn run_op<C: Suite>(f: &Fixed<C>, op: usize) -> Vec<(String, Vec<u8>)> {
     let s = SignatureSchemes::ProofOfPossession;
     // ops 12.. are the four message taking entry points with message variant 1, 2, 3
-    if op >= 24 {
+    if op >= 32 {
         use rand_core::SeedableRng;
         // the caller's RNG: seeded from the entropy seam when it is installed, from the OS otherwise
         let rng = match blsful::verif_hooks::next_seed() {
@@ -77,13 +85,13 @@ pub fn run_op<C: Suite>(f: &Fixed<C>, op: usize) -> Vec<(String, Vec<u8>)> {
         let gen = <C as BlsElGamal>::message_generator();
         let b = f.sk.0 + f.sk.0;
         return match op {
-            24 => {
+            32 => {
                 let (c1, c2, mp, bp, ch) = <C as BlsElGamal>::seal_scalar_with_proof(f.pk.0, f.sk.0, None, Some(b), rng).expect("seal_scalar_with_proof");
                 let _ = (c1, c2, mp);
                 // the proof nonce r = blinder_proof - challenge * b must be fresh although the blinder is pinned
                 vec![("elgamal-proof nonce r (pinned blinder)".into(), sc_to_be::<C>(&(bp - ch * b)).to_vec())]
             }
-            25 => {
+            33 => {
                 let (c1, c2) = <C as BlsElGamal>::seal_scalar(f.pk.0, f.sk.0, Some(gen), None, rng).expect("seal_scalar");
                 vec![("elgamal c1 (pinned generator)".into(), pt(&c1)), ("elgamal c2 (pinned generator)".into(), pt(&c2))]
             }
@@ -387,9 +395,9 @@ pub fn models(tier: Tier, seed: u64) -> Vec<Box<dyn DynModel>> {
 }
 
 pub fn describe(tier: Tier, r: &mut Report) {
-    r.rule = "part A (exhaustive, hooked entropy): all histories of the 12 randomized entry points (the four message taking ones with four message lengths each) plus three trait level ElGamal entry points with a caller pinned blinder / generator: 27 operations with identical arguments up to the length bound; each history runs three times - entropy answers A, A again, B: (I1) all ephemerals (points, masks, secrets) of all calls pairwise distinct, (I3) every ephemeral differs between A and B, (I2) A reproduces A, otherwise entropy is drawn outside the seam (machinery failure, not a verdict). part B (free running with real entropy - a sample, not an enumeration): N calls per entry point on 4 threads without a repeated ephemeral, and two independent processes with disjoint ephemerals; every aligned 16 byte block of the signcryption and time-lock masks is a fingerprint of its own".into();
+    r.rule = "part A (exhaustive, hooked entropy): all histories of the 12 randomized entry points (the four message taking ones with six message lengths each: 33, 200, 0, 64, 65536 and 70000 bytes) plus three trait level ElGamal entry points with a caller pinned blinder / generator: 35 operations with identical arguments up to the length bound; each history runs three times - entropy answers A, A again, B: (I1) all ephemerals (points, masks, secrets) of all calls pairwise distinct, (I3) every ephemeral differs between A and B, (I2) A reproduces A, otherwise entropy is drawn outside the seam (machinery failure, not a verdict). part B (free running with real entropy - a sample, not an enumeration): N calls per entry point on 4 threads without a repeated ephemeral, and two independent processes with disjoint ephemerals; every aligned 16 byte block of the signcryption and time-lock masks is a fingerprint of its own".into();
     r.deviation_bound_completed = format!("histories of length <= {}", if tier.thorough() { 3 } else { 2 });
-    r.alphabet.insert("entry_points".into(), serde_json::json!(OPS));
+    r.alphabet.insert("entry_points".into(), serde_json::json!(OPS.to_vec()));
     r.alphabet.insert("free_running_calls_per_entry_point".into(), serde_json::json!(if tier.thorough() { 4096 } else { 256 }));
     r.assumptions = vec!["the quality of OS entropy is assumed; part A decides everything downstream of get_crypto_rng(), part B is the only part that sees the line that obtains OS entropy".into()];
     r.not_covered = vec!["N > 4096 calls; more than two processes".into()];
